@@ -1,8 +1,15 @@
 """C15 — see DESIGN.md §4."""
-from ..spec import run_specs
+from ..spec import run_specs, k1_pairing, size_vs_write, extract
+from ..specs_registry import SPECS
 
 EXPLANATION = 'Per write::Operation variant: emitted sequences equal the reviewed table, the size model equals the emitted bytes (bag equality), branch displacement and length prefixes come from the same size() calls. Evaluation equality is NOT decided.'
 
+S = {s['id']: s for s in SPECS}
+
 
 def run(rep, ctx):
+    g = ctx.g
     run_specs(rep, ctx, 'C15')
+    k1_pairing(rep, g, 'K1-op', S['w_op_write'], [S['op_parse']], 'DW_OP_', b1_is_uleb_for=('Convert', 'Reinterpret'))
+    rep.rule('S-op', 'size model == emission: per write::Operation variant the set of byte bags Operation::size returns (plus the opcode byte) equals what Operation::write emits')
+    size_vs_write(rep, g, 'S-op', S['w_op_size'], S['w_op_write'])
